@@ -2001,8 +2001,19 @@ def tie_C10_all(ctx):
     tie_C10(ctx)
     image_surgery_C10(ctx)
 
+def falsify_C10(ctx):
+    """a broken obligation of C10 (a correspondence theorem of an `eq`, or a hand-written Clone / PartialEq the translator tie has
+    no theorem for — check.py ext_stage, `unmodelled`) and no failing pair among the quick cases: the thorough grid of pairs"""
+    if ctx.thorough:
+        return
+    ctx.thorough = True
+    try:
+        tie_C10_all(ctx)
+    finally:
+        ctx.thorough = False
+
 PROPS.update({
-    "C10": dict(tie=tie_C10_all),
+    "C10": dict(tie=tie_C10_all, falsifier=falsify_C10),
     "C11": dict(tie=tie_C11),
     "C12": dict(tie=tie_C12, absolute=True),
     "C13": dict(tie=tie_C13),
